@@ -77,6 +77,17 @@ func c01Programs(tier string) []*Spec {
 			}
 		}
 	}
+	// WithWaitGroup: a client counted in the user's wait group ends only when the container has shut down (it consumes
+	// the shutdown notifier's value); Wait must shut the container down before it joins the user's wait group
+	for _, rf := range refreshes {
+		sp := &Spec{Name: "c01-user-waitgroup", Refresh: rf, Q: -1, UWG: true, Notifier: true, NotifyByClient: true}
+		sp.Bars = []BarSpec{{Total: 2}}
+		sp.Main = []Op{{K: "add", B: 0}}
+		// (no refresh requests from the clients: a client blocked handing a request to a container that has shut down
+		// would keep the user's wait group, and with it Wait, from ever finishing: the program's own deadlock)
+		sp.Clients = [][]Op{completeOps(0, 2), {{K: "recvnotify"}}}
+		add(sp)
+	}
 	// variants: abort, remove-on-complete, pop mode, priority change, Progress.Write, cancel
 	for _, rf := range refreshes {
 		for _, q := range []int{-1, 0} {
